@@ -184,7 +184,28 @@ type memFile struct {
 	dir  bool
 }
 
-func (f *memFile) Stat() (fs.FileInfo, error) { return nil, errors.New("stat not supported") }
+// Stat reports the size and, like fstest.MapFS, a zero modification time.
+func (f *memFile) Stat() (fs.FileInfo, error) {
+	return memInfo{name: f.name, size: int64(len(f.spec.Data)), dir: f.dir}, nil
+}
+
+type memInfo struct {
+	name string
+	size int64
+	dir  bool
+}
+
+func (i memInfo) Name() string { return filepath.Base(i.name) }
+func (i memInfo) Size() int64  { return i.size }
+func (i memInfo) Mode() fs.FileMode {
+	if i.dir {
+		return fs.ModeDir | 0o755
+	}
+	return 0o600
+}
+func (i memInfo) ModTime() time.Time { return time.Time{} }
+func (i memInfo) IsDir() bool        { return i.dir }
+func (i memInfo) Sys() any           { return nil }
 func (f *memFile) Close() error               { return nil }
 func (f *memFile) Read(p []byte) (int, error) {
 	if f.dir {
@@ -322,6 +343,11 @@ var lineKinds = []lineKind{
 	{"target-unpadded-base64", true, func(r *vh.Rand, t, o keys.DHPublicKey) string {
 		return keys.DHPublicKeyPrefix + base64.RawStdEncoding.EncodeToString(t[:])
 	}},
+	{"target-bare-base64", true, func(r *vh.Rand, t, o keys.DHPublicKey) string { return b64(t) }},
+	{"target-prefix-twice", true, func(r *vh.Rand, t, o keys.DHPublicKey) string {
+		return keys.DHPublicKeyPrefix + keys.DHPublicKeyPrefix + b64(t)
+	}},
+	{"target-prefix-only-dash", true, func(r *vh.Rand, t, o keys.DHPublicKey) string { return "-" + b64(t) }},
 	{"target-hex", true, func(r *vh.Rand, t, o keys.DHPublicKey) string { return keys.DHPublicKeyPrefix + vh.Hex(t[:]) }},
 	{"huge-line", true, func(r *vh.Rand, t, o keys.DHPublicKey) string { return strings.Repeat("A", 70_000) }},
 	{"nul-bytes", true, func(r *vh.Rand, t, o keys.DHPublicKey) string { return "\x00\x00\x00" }},
@@ -407,6 +433,7 @@ func fileLevel(rng *vh.Rand, g genFile) (genFile, string) {
 
 func genC05(r *vh.Runner) {
 	genC05Func(r)
+	genC05Rewrites(r)
 	genC05E2E(r)
 }
 
@@ -468,6 +495,67 @@ func genC05Func(r *vh.Runner) {
 					r.Sample(map[string]any{"kind": "authorize-key", "class": class, "line_kinds": g.Kinds, "listed": listed, "accepted": err == nil})
 				}
 			}
+		})
+	}
+}
+
+// genC05Rewrites: the same server object and user across several versions of
+// the file (the key revoked by a same-length rewrite, the file removed, emptied,
+// replaced by a directory, restored): every decision follows the file as it is
+// at login time.
+func genC05Rewrites(r *vh.Runner) {
+	srv, err := hopserver.NewHopServerExt(nil, &config.ServerConfig{}, nil)
+	if err != nil {
+		panic(err)
+	}
+	n := r.Pick(60, 6000)
+	for i := 0; i < n; i++ {
+		r.Case(fmt.Sprintf("rewrites/%d", i), map[string]any{"i": i}, func(c *vh.Case) {
+			rng := vh.NewRand(r.Seed, "c05-rewrites", i)
+			var k, k2 keys.DHPublicKey
+			rng.Fill(k[:])
+			rng.Fill(k2[:])
+			user := knownUsers[rng.Intn(len(knownUsers))]
+			fsys := newMemFS()
+			srv.VerifSetFS(fsys)
+			var trace []string
+			for v := 0; v < 2+rng.Intn(5) && !c.Violated(); v++ {
+				var spec fileSpec
+				var what string
+				switch rng.Intn(9) {
+				case 0, 1:
+					spec, what = fileSpec{Kind: "file", Data: []byte(k.String() + "\n")}, "lists-key"
+				case 2, 3:
+					spec, what = fileSpec{Kind: "file", Data: []byte(k2.String() + "\n")}, "lists-other-key-same-length"
+				case 4:
+					g := []byte(k.String() + "\n")
+					for j := range g[:len(g)-1] {
+						g[j] = "ghijklmnop"[rng.Intn(10)]
+					}
+					spec, what = fileSpec{Kind: "file", Data: g}, "garbage-same-length"
+				case 5:
+					spec, what = fileSpec{Kind: "missing"}, "missing"
+				case 6:
+					spec, what = fileSpec{Kind: "file"}, "empty"
+				case 7:
+					spec, what = fileSpec{Kind: "file", Data: []byte(k2.String() + "\n" + k.String() + "\n")}, "lists-both"
+				default:
+					spec, what = fileSpec{Kind: "dir"}, "directory"
+				}
+				fsys.set(akPath(user), spec)
+				err := srv.AuthorizeKey(user, k)
+				listed := refListedSpec(spec, k)
+				trace = append(trace, fmt.Sprintf("v%d %s -> accepted=%v", v, what, err == nil))
+				r.Count("evaluations", 1)
+				r.Count("authorize_key_calls", 1)
+				if err == nil && !listed {
+					c.Violate("C05:authorize-key-accepts-unlisted-key:after-rewrite:"+what, map[string]any{"user": user, "versions": trace})
+				}
+				if err == nil {
+					r.Count("accepted_listed", 1)
+				}
+			}
+			r.Nontrivial("rewrites|" + strings.Join(trace, ";"))
 		})
 	}
 }
